@@ -25,6 +25,7 @@ var optionalPoints = []string{
 	"worker.start", "worker.beforeCb", "worker.afterCb", "queryListener.recv",
 	"conn.Publish", "conn.Subscribe", "conn.Close", "handler",
 	"auto.lock", // inserted before every lock of a mutex field "mu" by cmd/autoyield
+	"auto.go",   // inserted after every go statement by cmd/autoyield
 }
 
 func roleOf(point string) string {
